@@ -9,7 +9,8 @@ which `sort.Sort` leaves open).  The statement evaluated on the *implementation'
  self          every trapezoid satisfies `Left - maxIGap > MaxError` (the aligner widens a
                trapezoid by `maxIGap` diagonals: the widened band stays above the main diagonal);
  sorted input, every letter valid, `maxIGap ≥ 1`, every hit with `From ≤ To`
-               every hit outside the self-comparison cut lies inside one returned trapezoid
+               every hit that `MergeFilterHit` does not drop at its head (self-comparison cut;
+               band beyond the last query row, `-Diagonal > Qlen`) lies inside one returned trapezoid
                (`Left ≤ -Diagonal`, `-Diagonal + binWidth ≤ Right`, `Bottom ≤ From`, `To ≤ Top`),
                and every trapezoid has `Bottom ≤ Top` (and `Left ≤ Right` when `binWidth ≥ 0`).
 Core-only.
@@ -73,7 +74,7 @@ def statementWhy (c : Cfg) (hits : List FHit) (allValid : Bool) (traps : List Tr
   | some t => some s!"self-comparison-trapezoid-within-maxIGap-of-main-diagonal {showTrap t}"
   | none =>
     if !(allValid && decide (1 ≤ c.maxIGap) && sortedByFrom hits && hits.all (fun h => decide (h.from_ ≤ h.to))) then none
-    else match hits.find? (fun h => !selfCut c h && !traps.any (fun t => contains c t h)) with
+    else match hits.find? (fun h => !dropped c h && !traps.any (fun t => contains c t h)) with
     | some h => some s!"filter-hit-not-inside-any-trapezoid {h.from_}:{h.to}:{h.diagonal}"
     | none =>
       match traps.find? (fun t => !(decide (t.bottom ≤ t.top) && (decide (c.binWidth < 0) || decide (t.left ≤ t.right)))) with
@@ -82,11 +83,12 @@ def statementWhy (c : Cfg) (hits : List FHit) (allValid : Bool) (traps : List Tr
 
 def handleCase (c : Cfg) (hits : List FHit) (obs : String) : Verdict :=
   let allValid := c.qv.all id && c.tv.all id
-  let kept := hits.filter (fun h => !selfCut c h)
+  let kept := hits.filter (fun h => !dropped c h)
   let baseTags := [if c.selfComparison then "self" else "non-self"] ++
     (if allValid then [] else ["n-runs"]) ++
     (if sortedByFrom hits then ["sorted"] else ["unsorted"]) ++
     (if kept.length < hits.length then ["cut"] else []) ++
+    (if hits.any (beyondQuery c) then ["beyond-query"] else []) ++
     (if hits.isEmpty then ["no-hit"] else [])
   if obs == "err:index" then { status := "skip", tags := baseTags, detail := "index" } else
   match merge c hits with
